@@ -35,7 +35,9 @@ func subStreamSequences() mon.Sub {
 			var hs []ref.Header
 			var payloads [][]byte
 			var stream []byte
+			var frameStart []int
 			for i := 0; i < n; i++ {
+				frameStart = append(frameStart, len(stream))
 				h := ref.Header{Fin: c.Rng.Intn(2) == 0, Rsv: byte(c.Rng.Intn(8)), Op: byte(c.Rng.Intn(16)), Masked: c.Rng.Intn(2) == 0}
 				if i == 0 && c.Rng.Intn(2) == 0 {
 					h.Fin, h.Op = false, byte(c.Rng.Intn(3)) // open a fragmented message first
@@ -62,7 +64,7 @@ func subStreamSequences() mon.Sub {
 				for _, h := range hs {
 					d = append(d, h.String())
 				}
-				return map[string]interface{}{"headers": d, "plan": plan.String(), "payloads_taken_from_the_source_directly": c.I%3 == 2}
+				return map[string]interface{}{"headers": d, "plan": plan.String(), "payloads_taken_from_the_source_directly": c.I%3 == 2, "idle_timeout_before_header": c.I%4 == 1}
 			}
 			// reference run: ws.ReadHeader + exact payload reads over the same bytes
 			c1 := xport.NewChunker(stream, plan)
@@ -80,11 +82,22 @@ func subStreamSequences() mon.Sub {
 			// streaming decoder, one Reader for the whole sequence
 			c.Count(n)
 			c2 := xport.NewChunker(stream, plan)
-			rd := &wsutil.Reader{Source: c2, SkipHeaderCheck: true, State: parserStates[c.I%len(parserStates)]}
+			var src2 io.Reader = c2
+			// one case in four: the connection is idle when one of the headers is asked for - the read times out with
+			// nothing consumed (an expired read deadline) and the application asks again: the header is there then
+			idleAt := -1
+			if c.I%4 == 1 {
+				idleAt = c.I / 4 % n
+				src2 = &xport.Transient{R: c2, At: frameStart[idleAt], Err: xport.ErrTimeout}
+			}
+			rd := &wsutil.Reader{Source: src2, SkipHeaderCheck: true, State: parserStates[c.I%len(parserStates)]}
 			open := false // a non-final data frame went before: the Reader drains control frames by itself then
 			direct := c.I%3 == 2
 			for i := range hs {
 				g, err := rd.NextFrame()
+				if err == xport.ErrTimeout && i == idleAt {
+					g, err = rd.NextFrame()
+				}
 				if err != nil {
 					c.Fail("sequence/stream/error", fmt.Sprintf("Reader.NextFrame failed on header %d of a sequence (%s, after %d frames, fragmented=%v): %v", i, hs[i], i, open, err), det())
 					return
@@ -100,7 +113,7 @@ func subStreamSequences() mon.Sub {
 					if direct {
 						// the application takes the payload from the source itself (a header-only use of the
 						// decoder: "consumes not one byte beyond the header" is what makes that possible)
-						if _, err := io.ReadFull(c2, p); err != nil {
+						if _, err := io.ReadFull(src2, p); err != nil {
 							c.Inconclusive("harness: direct payload read failed")
 							return
 						}
